@@ -1,5 +1,6 @@
 import MuduoVerif.Proofs.ConnLifeTrace
 import MuduoVerif.Proofs.ConnProgress
+import MuduoVerif.Proofs.OwnerExit
 import MuduoVerif.Proofs.ConnSkelTie
 /-!
 # C02 — each connection gets exactly one UP, then messages, then exactly one DOWN; clean destruction
@@ -214,5 +215,361 @@ theorem statement_order_tied :
     Gen.ConnSkel.handleError = ConnSkel.Decl.handleError ∧
     Gen.ConnSkel.handleEventWithGuard = ConnSkel.Decl.handleEventWithGuard :=
   ConnSkel.skeletons_agree
+
+end MuduoVerif.C02
+
+/-!
+## The multi-loop ownership protocol of `TcpServer`
+
+Model: `Model/Owner.lean` (acceptor loop + `L` io loops as FIFO functor queues, any number of connections, every
+interleaving; hand-offs, name construction, life token and final drain from `Generated/Owner.lean`).  Invariant and its
+preservation: `Proofs/Owner*.lean`.  Hypotheses, stated explicitly: connection names are distinct (`Function.Injective
+nameOf`; negation witness `owner_name_collision_witness`) and no `EventLoop` object is destroyed while a
+`connectEstablished` / `connectDestroyed` functor is stranded in its queue (`GoodSched`; negation witness
+`owner_stranded_witness` - a genuine defect of the final drain for connections served by the quitting loop).
+-/
+namespace MuduoVerif.C02
+open MuduoVerif.Owner MuduoVerif.Gen.Owner
+open MuduoVerif.Gen.Conn (StateE)
+
+/-- the state of the TcpServer ownership model (`Model/Owner.lean`) a schedule leads to: `L` io loops, any number of
+connections, every interleaving of the loops, the user's calls and the destruction of the server -/
+abbrev oreach (L : Nat) (nameOf : Nat → Nat) (as : List Action) : Srv := Owner.run (Owner.init L nameOf) as
+
+section owner
+variable (L : Nat) (nameOf : Nat → Nat) (hinj : Function.Injective nameOf) (as : List Action)
+  (hgood : GoodSched (Owner.init L nameOf) as)
+include hinj hgood
+
+/-- the invariant of the ownership protocol holds in every reachable state -/
+theorem owner_inv : GInv (oreach L nameOf as) :=
+  ginv_run as _ (ginv_init L nameOf) hinj hgood
+
+/-- **owner_updown**: for every connection of a `TcpServer` with any number of io loops, in every interleaving: it is
+announced (`newConnection`) once, the connection callback reports UP at most once and only after that, DOWN at most once,
+message callbacks and DOWN only between UP and DOWN, no assertion fails; UP has been reported exactly when the state has
+left `kConnecting`, DOWN exactly when it is `kDisconnected` -/
+theorem owner_updown (c : Nat) (hc : c < (oreach L nameOf as).n) :
+    let s := oreach L nameOf as
+    cntK c .new s.trace = 1 ∧ cntK c .up s.trace ≤ 1 ∧ cntK c .down s.trace ≤ 1 ∧ cntK c .abort s.trace = 0 ∧
+    (cntK c .up s.trace = 1 ↔ (s.conn c).st ≠ .kConnecting) ∧ (cntK c .down s.trace = 1 ↔ (s.conn c).st = .kDisconnected) ∧
+    ∀ pre e post, s.trace = pre ++ e :: post → e.conn = c →
+      (e.kind = .up → cntK c .new pre = 1 ∧ cntK c .up pre = 0) ∧
+      (e.kind = .msg → cntK c .up pre = 1 ∧ cntK c .down pre = 0) ∧
+      (e.kind = .down → cntK c .up pre = 1 ∧ cntK c .down pre = 0) := by
+  intro s
+  have hi : CInv s c := (owner_inv L nameOf hinj as hgood).conns c hc
+  obtain ⟨a, ha, hb, hcb, hd, hdead, her⟩ := hi.core.life
+  obtain ⟨h1, h2, h3, h4, h5, h6, h7, h8, h9, h10⟩ := Owner.life_counts c _ a ha
+  refine ⟨by rw [h1, hb]; rfl, by rw [h2]; split <;> omega, by rw [h3]; split <;> omega, h7, ?_, ?_, ?_⟩
+  · rw [h2, hcb]; cases hs : (s.conn c).st <;> simp [clsOf]
+  · rw [h3, hcb]; cases hs : (s.conn c).st <;> simp [clsOf]
+  · intro pre e post htr hec
+    rw [htr] at ha
+    obtain ⟨q, q', hq, hstep⟩ := Owner.life_letter c pre post e a ha hec
+    obtain ⟨g1, g2, g3, _⟩ := Owner.life_counts c pre q hq
+    refine ⟨fun hk => ?_, fun hk => ?_, fun hk => ?_⟩ <;> rw [hk] at hstep <;> simp only [autoStep] at hstep <;>
+      split at hstep <;> simp_all [b2n]
+
+/-- **DOWN exactly once**: once a close cause has occurred (the peer's close was seen, `forceClose()` was accepted, the
+server was destroyed) and the loops have run their queues, the connection has had exactly one UP and exactly one DOWN -/
+theorem owner_down_once (c : Nat) (hc : c < (oreach L nameOf as).n) (hq : (oreach L nameOf as).quiet)
+    (hcause : ((oreach L nameOf as).conn c).cause = true) :
+    cntK c .up (oreach L nameOf as).trace = 1 ∧ cntK c .down (oreach L nameOf as).trace = 1 := by
+  have hi := (owner_inv L nameOf hinj as hgood).conns c hc
+  have hst : ((oreach L nameOf as).conn c).st = .kDisconnected := by
+    rcases hi.cause hcause with h | h | h
+    · exact h
+    · rw [(hq _).1] at h; cases h
+    · rw [(hq _).1] at h; cases h
+  obtain ⟨_, _, _, _, h5, h6, _⟩ := owner_updown L nameOf hinj as hgood c hc
+  exact ⟨h5.mpr (by rw [hst]; decide), h6.mpr hst⟩
+
+/-- **owner_affinity**: every callback of a connection (UP, message, DOWN, close callback) and its `connectDestroyed` run
+on the loop the connection was assigned to; the map is touched (`newConnection`, `removeConnectionInLoop`) on the base
+loop only; no `assertInLoopThread()` / `assert(n == 1)` fails and no functor runs on a destroyed server -/
+theorem owner_affinity (e : Ev) (he : e ∈ (oreach L nameOf as).trace) :
+    (e.kind = .up ∨ e.kind = .msg ∨ e.kind = .down ∨ e.kind = .closeCb ∨ e.kind = .destroyed →
+      e.loop = ((oreach L nameOf as).conn e.conn).loop) ∧
+    (e.kind = .new ∨ e.kind = .erase → e.loop = 0) ∧
+    e.kind ≠ .abort ∧ e.kind ≠ .eraseMiss ∧ e.kind ≠ .uaf := by
+  have hg := owner_inv L nameOf hinj as hgood
+  have haff := hg.rest.aff e he
+  have hbad : e.kind ≠ .abort ∧ e.kind ≠ .eraseMiss ∧ e.kind ≠ .uaf := by
+    by_cases hc : e.conn < (oreach L nameOf as).n
+    · obtain ⟨a, ha, _⟩ := (hg.conns e.conn hc).core.life
+      obtain ⟨pre, post, hsplit⟩ := List.append_of_mem he
+      rw [hsplit] at ha
+      obtain ⟨q, q', _, hstep⟩ := Owner.life_letter e.conn pre post e a ha rfl
+      refine ⟨fun hk => ?_, fun hk => ?_, fun hk => ?_⟩ <;> rw [hk] at hstep <;> simp [autoStep] at hstep
+    · exact absurd rfl (no_event_of_life_init e.conn _ (hg.fresh e.conn (by omega)).2.1 e he)
+  refine ⟨fun hk => ?_, fun hk => ?_, hbad⟩
+  · unfold AffOK at haff
+    rcases hk with h | h | h | h | h <;> rw [h] at haff <;> exact haff
+  · unfold AffOK at haff
+    rcases hk with h | h <;> rw [h] at haff <;> exact haff
+
+/-- **round_robin**: the `i`-th accepted connection is served by io loop `i mod L` (index `i mod L + 1`), by the base loop
+when there are no io loops -/
+theorem round_robin (c : Nat) (hc : c < (oreach L nameOf as).n) :
+    ((oreach L nameOf as).conn c).loop = if L = 0 then 0 else c % L + 1 := by
+  have h := (owner_inv L nameOf hinj as hgood).rest.assigned c hc
+  have hL : (oreach L nameOf as).L = L := by
+    have : ∀ (as : List Action) (s : Srv), (Owner.run s as).L = s.L := by
+      intro as; induction as with
+      | nil => intro s; rfl
+      | cons a as ih => intro s; exact (ih (step s a)).trans (same_step s a).1
+    exact this as _
+  rw [hL] at h; exact h
+
+/-- **owner_map**: the map holds exactly the connections that were accepted and not yet erased, as long as the server
+exists; every key is the name of its connection; `erase` finds its entry (`assert(n == 1)` never fails), at most once per
+connection and only after DOWN -/
+theorem owner_map (c : Nat) :
+    let s := oreach L nameOf as
+    (s.inMap c = true ↔ c < s.n ∧ cntK c .erase s.trace = 0 ∧ s.alive = true) ∧
+    cntK c .erase s.trace ≤ 1 ∧ cntK c .eraseMiss s.trace = 0 ∧
+    (∀ e ∈ s.map, e.1 = nameOf (idInitial + e.2 * idStep)) ∧
+    (∀ pre e post, s.trace = pre ++ e :: post → e.conn = c → e.kind = .erase → cntK c .down pre = 1 ∧ cntK c .erase pre = 0) := by
+  intro s
+  have hg : GInv s := owner_inv L nameOf hinj as hgood
+  have hN : s.nameOf = nameOf := by
+    have : ∀ (as : List Action) (s : Srv), (Owner.run s as).nameOf = s.nameOf := by
+      intro as; induction as with
+      | nil => intro s; rfl
+      | cons a as ih => intro s; exact (ih (step s a)).trans (same_step s a).2.1
+    exact this as _
+  have hkeys : ∀ e ∈ s.map, e.1 = nameOf (idInitial + e.2 * idStep) := by
+    intro e he
+    rw [hg.mapOK.keys e he, (hg.conns e.2 (hg.mapOK.lt e he)).core.name, hN]
+  by_cases hc : c < s.n
+  · have hi := hg.conns c hc
+    obtain ⟨a, ha, hb, hcb, hd, hdead, her⟩ := hi.core.life
+    obtain ⟨h1, h2, h3, h4, h5, h6, h7, h8, h9, h10⟩ := Owner.life_counts c _ a ha
+    refine ⟨?_, by rw [h4]; unfold b2n; split <;> omega, h8, hkeys, ?_⟩
+    · constructor
+      · intro him
+        have hsa : s.alive = true := by
+          cases hs : s.alive with
+          | true => rfl
+          | false => have := hg.rest.mapDead hs; simp [Srv.inMap, this] at him
+        refine ⟨hc, ?_, hsa⟩
+        rw [h4, her hsa, him]; rfl
+      · rintro ⟨_, h0, hsa⟩
+        rw [h4, her hsa] at h0
+        cases him : s.inMap c with
+        | true => rfl
+        | false => rw [him] at h0; simp [b2n] at h0
+    · intro pre e post htr hec hk
+      rw [htr] at ha
+      obtain ⟨q, q', hq, hstep⟩ := Owner.life_letter c pre post e a ha hec
+      obtain ⟨_, _, g3, g4, _⟩ := Owner.life_counts c pre q hq
+      rw [hk] at hstep; simp only [autoStep] at hstep
+      split at hstep <;> simp_all [b2n]
+  · have hfr := hg.fresh c (by omega)
+    have hno := no_event_of_life_init c _ hfr.2.1
+    have hz : ∀ k, cntK c k s.trace = 0 := by
+      intro k; unfold cntK; rw [List.length_eq_zero_iff, List.filter_eq_nil_iff]
+      intro e he; simp [hno e he]
+    refine ⟨?_, by rw [hz]; omega, hz _, hkeys, ?_⟩
+    · rw [inMap_ge s hg.mapOK c (by omega)]; simp [hc]
+    · intro pre e post htr hec
+      exact absurd hec (hno e (by rw [htr]; simp))
+
+/-- **owner_destroy_clean**: a connection object is destroyed only in state `kDisconnected`, with its channel removed from
+the poller, after DOWN and after `connectDestroyed`; the descriptor is open as long as the object lives and is closed by
+the destructor, which runs at most once -/
+theorem owner_destroy_clean (c : Nat) (hc : c < (oreach L nameOf as).n) :
+    let s := oreach L nameOf as
+    ((s.conn c).alive = false → (s.conn c).st = .kDisconnected ∧ (s.conn c).registered = false ∧ (s.conn c).fdOpen = false ∧
+      cntK c .dtor s.trace = 1) ∧
+    ((s.conn c).alive = true → (s.conn c).fdOpen = true ∧ cntK c .dtor s.trace = 0) ∧
+    (∀ pre e post, s.trace = pre ++ e :: post → e.conn = c → e.kind = .dtor →
+      cntK c .down pre = 1 ∧ cntK c .destroyed pre = 1 ∧ cntK c .dtor pre = 0) := by
+  intro s
+  have hg : GInv s := owner_inv L nameOf hinj as hgood
+  have hi := hg.conns c hc
+  obtain ⟨a, ha, hb, hcb, hd, hdead, her⟩ := hi.core.life
+  obtain ⟨h1, h2, h3, h4, h5, h6, _⟩ := Owner.life_counts c _ a ha
+  refine ⟨fun hal => ?_, fun hal => ?_, ?_⟩
+  · have hh : s.held c = false := by rw [← hi.alive_held]; exact hal
+    obtain ⟨_, _, hst, hreg, _⟩ := row_of_not_held hi.core hh
+    refine ⟨hst, hreg, by rw [hi.core.fd]; exact hal, ?_⟩
+    rw [h6, hdead, hal]; rfl
+  · refine ⟨by rw [hi.core.fd]; exact hal, ?_⟩
+    rw [h6, hdead, hal]; rfl
+  · intro pre e post htr hec hk
+    rw [htr] at ha
+    obtain ⟨q, q', hq, hstep⟩ := Owner.life_letter c pre post e a ha hec
+    obtain ⟨_, _, g3, _, g5, g6, _⟩ := Owner.life_counts c pre q hq
+    rw [hk] at hstep; simp only [autoStep] at hstep
+    split at hstep
+    · rename_i hcond
+      simp only [Bool.and_eq_true, Bool.not_eq_true'] at hcond
+      have hw := (Owner.life_wf c pre q hq).1 hcond.1
+      rw [g3, g5, g6, hw, hcond.1, hcond.2]; simp [b2n]
+    · cases hstep
+
+/-- **owner_no_leak**: when every loop has run its queue, a close cause has occurred and user code holds no reference, the
+connection object is destroyed (and, by `owner_destroy_clean`, its descriptor closed) -/
+theorem owner_no_leak (c : Nat) (hc : c < (oreach L nameOf as).n) (hq : (oreach L nameOf as).quiet)
+    (hcause : ((oreach L nameOf as).conn c).cause = true) (hu : ((oreach L nameOf as).conn c).user = 0) :
+    ((oreach L nameOf as).conn c).alive = false ∧ ((oreach L nameOf as).conn c).fdOpen = false := by
+  have hg := owner_inv L nameOf hinj as hgood
+  have hi := hg.conns c hc
+  have hst : ((oreach L nameOf as).conn c).st = .kDisconnected := by
+    rcases hi.cause hcause with h | h | h
+    · exact h
+    · rw [(hq _).1] at h; cases h
+    · rw [(hq _).1] at h; cases h
+  have hio : ioQ (oreach L nameOf as) c = [] := by unfold ioQ; rw [(hq _).1]; rfl
+  have hrem : remN (oreach L nameOf as) c = 0 := by unfold remN; rw [(hq _).1]; rfl
+  have hrow := hi.core.row
+  unfold RowP at hrow
+  rw [hio, hrem] at hrow
+  have him : (oreach L nameOf as).inMap c = false := by
+    clear hq hio hrem hg hi
+    rcases hrow with r|r|r|r|r|r|r|r|r <;> grind [isUp]
+  have hinq : (oreach L nameOf as).inQueues c = false := by
+    unfold Srv.inQueues
+    rw [List.any_eq_false]
+    intro l _
+    rw [(hq l).1, (hq l).2]; simp
+  have hal : ((oreach L nameOf as).conn c).alive = false := by
+    rw [hi.alive_held]; unfold Srv.held; simp [him, hu, hinq]
+  exact ⟨hal, by rw [hi.core.fd]; exact hal⟩
+
+/-- **server_destruction**: once the `TcpServer` has been destroyed - on the base loop, while the io loops were running,
+whatever was in flight (connections being established, closes on their way to the base loop, half-closed connections) -
+and the loops have run their queues, every connection it ever accepted has had exactly one UP and exactly one DOWN, its
+channel is removed, nothing ran on the destroyed server, and the object is destroyed unless user code still holds it -/
+theorem server_destruction (hdead : (oreach L nameOf as).alive = false) (hq : (oreach L nameOf as).quiet)
+    (c : Nat) (hc : c < (oreach L nameOf as).n) :
+    let s := oreach L nameOf as
+    cntK c .up s.trace = 1 ∧ cntK c .down s.trace = 1 ∧ cntK c .destroyed s.trace = 1 ∧ cntK c .uaf s.trace = 0 ∧
+    (s.conn c).st = .kDisconnected ∧ (s.conn c).registered = false ∧
+    ((s.conn c).user = 0 → (s.conn c).alive = false ∧ (s.conn c).fdOpen = false ∧ cntK c .dtor s.trace = 1) := by
+  intro s
+  have hg : GInv s := owner_inv L nameOf hinj as hgood
+  have hi := hg.conns c hc
+  have hio : ioQ s c = [] := by unfold ioQ; rw [(hq _).1]; rfl
+  have hrem : remN s c = 0 := by unfold remN; rw [(hq _).1]; rfl
+  have hrow := hi.core.row
+  unfold RowP at hrow
+  rw [hio, hrem, hdead] at hrow
+  have hr : (s.conn c).st = .kDisconnected ∧ (s.conn c).registered = false ∧ s.inMap c = false := by
+    clear hq hio hrem hg hi
+    rcases hrow with r|r|r|r|r|r|r|r|r <;> grind
+  obtain ⟨hst, hreg, him⟩ := hr
+  obtain ⟨a, ha, hb, hcb, hd, hdd, her⟩ := hi.core.life
+  obtain ⟨h1, h2, h3, h4, h5, h6, h7, h8, h9, h10⟩ := Owner.life_counts c _ a ha
+  refine ⟨by rw [h2, hcb, hst]; simp [clsOf], by rw [h3, hcb, hst]; simp [clsOf], by rw [h5, hd, hreg, hst]; rfl, h9, hst, hreg, ?_⟩
+  intro hu
+  have hinq : s.inQueues c = false := by
+    unfold Srv.inQueues
+    rw [List.any_eq_false]
+    intro l _
+    rw [(hq l).1, (hq l).2]; simp
+  have hal : (s.conn c).alive = false := by
+    rw [hi.alive_held]; unfold Srv.held; simp [him, hu, hinq]
+  exact ⟨hal, by rw [hi.core.fd]; exact hal, by rw [h6, hdd, hal]; rfl⟩
+
+/-- **server_destruction, reached**: the code drains a loop's functor queue once more when the loop leaves `loop()`
+(`Generated/Owner.lean: finalDrain`, read from `EventLoop::loop`; `server_destruction_needs_drain` is the negation witness
+without it).  Hence: once the server is destroyed, every io loop has left `loop()` (the pool is joined at the end of
+`~TcpServer`) and the base loop has run what was queued to it, nothing is left to do, and every connection has had its one
+UP and one DOWN and is destroyed unless user code holds it -/
+theorem server_destruction_drained (hdead : (oreach L nameOf as).alive = false)
+    (hio : ∀ l, 1 ≤ l → l ≤ L → (oreach L nameOf as).exited l = true)
+    (hbase : (oreach L nameOf as).q 0 = [] ∧ (oreach L nameOf as).done 0 = [])
+    (c : Nat) (hc : c < (oreach L nameOf as).n) :
+    let s := oreach L nameOf as
+    s.quiet ∧
+    cntK c .up s.trace = 1 ∧ cntK c .down s.trace = 1 ∧ cntK c .destroyed s.trace = 1 ∧ cntK c .uaf s.trace = 0 ∧
+    (s.conn c).st = .kDisconnected ∧ (s.conn c).registered = false ∧
+    ((s.conn c).user = 0 → (s.conn c).alive = false ∧ (s.conn c).fdOpen = false ∧ cntK c .dtor s.trace = 1) := by
+  intro s
+  have hx : XInv s := xinv_run as _ (ginv_init L nameOf) hinj hgood (xinv_init L nameOf)
+  have hd : s.drain = true := by
+    have : s.drain = (Owner.init L nameOf).drain := run_drain as _
+    rw [this]; rfl
+  have hL : s.L = L := by
+    have : ∀ (as : List Action) (s : Srv), (Owner.run s as).L = s.L := by
+      intro as; induction as with
+      | nil => intro s; rfl
+      | cons a as ih => intro s; exact (ih (step s a)).trans (same_step s a).1
+    exact this as _
+  have hq : s.quiet := quiet_of_exited s hx hd (fun l h1 h2 => hio l h1 (hL ▸ h2)) hbase
+  exact ⟨hq, server_destruction L nameOf hinj as hgood hdead hq c hc⟩
+
+end owner
+
+/-- **no hypothesis on the schedule when there are io loops**: with `L ≥ 1` io loops (and the final drain the code has)
+every schedule satisfies `GoodSched` - all the theorems above hold for every interleaving whatsoever; the hypothesis only
+restricts servers whose base loop serves the connections itself (`owner_stranded_witness`) -/
+theorem owner_goodSched_io (L : Nat) (nameOf : Nat → Nat) (hinj : Function.Injective nameOf) (hL : L ≠ 0) (as : List Action) :
+    GoodSched (Owner.init L nameOf) as :=
+  goodSched_io as _ (ginv_init L nameOf) (xinv_init L nameOf) hinj hL rfl
+
+/-- **the name buffer is large enough** (the premise of `Function.Injective nameOf` on the code's side): the longest
+suffix `newConnection` formats, `-[xxxx:xxxx:xxxx:xxxx:xxxx:xxxx:xxxx:xxxx]:65535#2147483647` (1 + 47 + 1 + 10
+characters), fits the buffer that `snprintf` is given, so the decimal id - which distinguishes the names, `nextConnId_`
+growing by one per connection - is never cut off -/
+theorem owner_name_buffer_fits : 1 + 47 + 1 + 10 ≤ nameLimit - 1 ∧ nameLimit ≤ nameBufSize ∧ idStep = 1 ∧ idInitial = 1 := by
+  decide
+
+/-- **negation witness for `owner_map` / `owner_destroy_clean` without distinct names** (what a too small name buffer or an
+id that is not incremented causes): two connections with the same name - the second `connections_[connName] = conn`
+overwrites the entry of the first, whose object is destroyed while it is connected and its channel registered -/
+theorem owner_name_collision_witness :
+    let s := oreach 1 (fun _ => 0) [.accept, .accept, .run 1, .endBatch 1]
+    (s.conn 0).alive = false ∧ (s.conn 0).st = .kConnected ∧ (s.conn 0).registered = true ∧ cntK 0 .down s.trace = 0 := by
+  decide
+
+/-- **negation witness for the hypothesis `GoodSched`** (a genuine defect of the code as it is): one loop serves the
+connection; `forceCloseInLoop` runs in the drain at the exit of `loop()`, the `connectDestroyed` it causes is queued behind
+that drain and is destroyed with the `EventLoop` object without having run: the connection is destroyed with its channel
+still registered -/
+theorem owner_stranded_witness :
+    let as : List Action := [.accept, .forceClose 0 1, .exit 0, .destroy, .loopGone 0]
+    let s := oreach 0 id as
+    ¬ GoodSched (Owner.init 0 id) as ∧ (s.conn 0).alive = false ∧ (s.conn 0).registered = true ∧ cntK 0 .destroyed s.trace = 0 := by
+  refine ⟨?_, by decide, by decide, by decide⟩
+  intro h
+  have := h.2.2.2.2.1 0 rfl (by decide) (.des 0) (by decide) 0
+  exact this.2 rfl
+
+/-- **negation witness for `server_destruction` without the final drain** (the defect F10, repaired: `init` takes `drain`
+from the source): the server is destroyed while the io loop is between two functors; the loop leaves `loop()` without
+running the `connectDestroyed` that `~TcpServer` queued; the functor dies with the `EventLoop`: the connection never gets
+its DOWN and is destroyed connected, its channel registered. With the drain the same schedule ends with exactly one DOWN
+and a clean destruction. -/
+theorem server_destruction_needs_drain :
+    let as : List Action := [.accept, .run 1, .endBatch 1, .destroy, .exit 1, .loopGone 1]
+    let bad := Owner.run { Owner.init 1 id with drain := false } as
+    let good := Owner.run { Owner.init 1 id with drain := true } as
+    (cntK 0 .down bad.trace = 0 ∧ (bad.conn 0).alive = false ∧ (bad.conn 0).st = .kConnected ∧ (bad.conn 0).registered = true) ∧
+    (cntK 0 .up good.trace = 1 ∧ cntK 0 .down good.trace = 1 ∧ (good.conn 0).alive = false ∧ (good.conn 0).st = .kDisconnected ∧
+      (good.conn 0).registered = false ∧ cntK 0 .dtor good.trace = 1) := by
+  decide
+
+/-- non-vacuity: two io loops, three connections (peer close, `forceClose()` from another thread with a user reference
+held across it, server destroyed inside the base loop while the third is up and the first one's
+`removeConnectionIfAlive` is still on its way), a schedule that satisfies `GoodSched` and ends quiet -/
+theorem owner_example :
+    let as : List Action := [.accept, .accept, .accept, .run 1, .run 2, .run 1, .endBatch 1, .endBatch 2, .msg 0, .hold 1,
+      .forceClose 1 3, .run 2, .endBatch 2, .postDestroy, .close 0, .run 0, .run 0, .run 0, .endBatch 0, .exit 1, .loopGone 1,
+      .exit 2, .loopGone 2, .drop 1 3, .exit 0, .loopGone 0]
+    let s := Owner.run (Owner.init 2 id) as
+    GoodSched (Owner.init 2 id) as ∧ Function.Injective (id : Nat → Nat) ∧ s.n = 3 ∧ s.alive = false ∧
+    (∀ l, l < 4 → s.q l = [] ∧ s.done l = []) ∧
+    (∀ c, c < 3 → (s.conn c).alive = false ∧ cntK c .up s.trace = 1 ∧ cntK c .down s.trace = 1) ∧
+    s.trace.map (fun e => (e.conn, e.kind, e.loop)) =
+      [(0, .new, 0), (1, .new, 0), (2, .new, 0), (0, .up, 1), (1, .up, 2), (2, .up, 1), (0, .msg, 1),
+       (1, .down, 2), (1, .closeCb, 2), (0, .down, 1), (0, .closeCb, 1), (1, .erase, 0), (0, .destroyed, 1), (2, .down, 1),
+       (2, .destroyed, 1), (0, .dtor, 1), (2, .dtor, 1), (1, .destroyed, 2), (1, .dtor, 3)] := by
+  refine ⟨?_, fun _ _ h => h, by decide, by decide, by decide, by decide, ?_⟩
+  · exact goodSched_of_goodB _ _ (by decide)
+  · decide
 
 end MuduoVerif.C02
